@@ -324,7 +324,8 @@ func checkC15(w *World, r *Report) {
 	ruleRouterMiddleware(w, r, "R15.4")
 	r.Rule("R15.3", "nothing waits for a peer while the table of all DNS peers is locked", 1)
 	ruleNoWaitUnderLock(w, r, "R15.3", func(m *types.Var) bool {
-		return m.Name() == "usersLock" || strings.HasPrefix(fieldOwner(m), "server.")
+		// the mutex of the table of all DNS peers (a mutex field of the listener object), or of a server object
+		return strings.HasSuffix(fieldOwner(m), ".ServerDnsListener") || strings.HasPrefix(fieldOwner(m), "server.")
 	}, "every other peer that needs this lock (new sessions, closes, the pruner) waits as long as this one peer chooses")
 	r.Rule("R15.5", "no answer is written to a peer, and nothing else waits for one, while a lock shared by all peers of a DNS endpoint is held", 1)
 	lockPeerWrites = true
